@@ -858,9 +858,13 @@ func (g *Graph) factsLattice() Lattice[Facts] {
 					s = s.clone()
 					s.m["§"+name] = true
 				}
-				if name, un := g.unmarkNodes[st.Node]; un && s.m["§"+name] {
-					s = s.clone()
-					delete(s.m, "§"+name)
+				if names, un := g.unmarkNodes[st.Node]; un {
+					for _, name := range strings.Split(names, ",") {
+						if s.m["§"+name] {
+							s = s.clone()
+							delete(s.m, "§"+name)
+						}
+					}
 				}
 				lhs := assignedLHS(st.Node)
 				var unlockRoots []string
